@@ -16,7 +16,9 @@ EXPLANATION = (
     "element of a trimmed key can only come from the universal parameters. R5: out-of-range requests are refused "
     "(TrimmingDegreeTooLarge depending on both the parameters and the requested degree in the four degree-based trims, "
     "Sonic's bound check, InvalidParameters in the linear-code setup/trim, DegreeIsZero / InvalidNumberOfVariables in "
-    "the KZG10 and PST13 setups, the aborting assertions of MultilinearPC). Positive controls: the same detectors must "
+    "the KZG10 and PST13 setups, the aborting assertions of MultilinearPC). R5p: in the trims that take a list of "
+    "enforced bounds no refusal condition is computed from first()/last() of the caller's own (unsorted) list - "
+    "only of a sorted copy or of every element. Positive controls: the same detectors must "
     "find a draw and a generator() call in KZG10::setup. Pairing consistency of the SRS, exact power windows and the "
     "doubling tables are runtime facts and are not decided.")
 RULE = ("instances = 2 transparency rows + 7 trims x {no draw, no fresh generator} + refusal rows + positive controls")
@@ -94,6 +96,12 @@ def run(rep, ctx, tier):
             rep.add("R5", "%s:anchor" % key, False, "%s not found (fail closed)" % key, None)
             continue
         R5.check_row(rep, ctx, "R5", key, b, adt, variants, req)
+    # R5p: the enforced-bounds list comes unsorted from the caller: no admission on one position of it
+    for sk in ("marlin_kzg10", "sonic_kzg10"):
+        b = f.find1("trim", self_adt=S[sk]["adt"], trait=PC)
+        if b is not None:
+            R5.check_not_positional(rep, ctx, "R5p", "%s.trim" % sk, b, S[sk]["adt"], T.ROLES["trim"]["enforced_degree_bounds"],
+                                    "enforced degree bounds")
     for key, find, req in (("multilinear.setup", dict(name="setup", self_adt=ML, trait=""), [1]),
                            ("multilinear.trim", dict(name="trim", self_adt=ML, trait=""), [1, 2])):
         b = f.find1(**find)
